@@ -402,3 +402,16 @@ Definition arg_of (p : param) : argval :=
 
 Definition needs_deserializer (p : param) : option N :=
   if p_named_cm p then None else match p_annot p with AnOther c => Some c | _ => None end.
+
+(* what the requester of method m gets once handler behaviour b was selected and called *)
+Definition expected_result (m : meth) (ser_ok : bool) (b : hbeh) : result :=
+  match b with
+  | HRaise => Failed (meth_error m) WHandler
+  | HRetFuture => Delivered (match m with MFnf | MPush => DNone | _ => DAsIs end)
+  | HRetPayload => Delivered (match m with MFnf | MPush => DNone | MResponse => DFuture | _ => DAsIs end)
+  | HRetOther => match m with
+                 | MFnf | MPush => Delivered DNone
+                 | MResponse => if ser_ok then Delivered DFutureSer else Failed (meth_error m) WSerialize
+                 | _ => Delivered DAsIs
+                 end
+  end.
